@@ -154,6 +154,123 @@ func c24(c *core.Ctx) {
 		rTab.Check(ok, f.Key+":unknown-type", f.Decl.Pos(), "unknown type returns an error", "unknown compressor type does not return an error")
 	}
 
+	// C24.ownresult: the caller owns what Compress / Decompress returned.
+	rOwn := c.Rule("C24.ownresult", "a byte slice returned by a compress or decompress function is not a window into a buffer the package keeps for reuse: when a result is taken with (*bytes.Buffer).Bytes(), the buffer is a local allocated in the same function, not one reached through a sync.Pool, a package variable or a field. A later call that reuses the buffer would otherwise overwrite a result the caller still holds, and Decompress would return other data without an error", 2)
+	{
+		n := 0
+		for _, f := range p.FuncsIn(pkgCompressor) {
+			if f.Decl.Body == nil {
+				continue
+			}
+			sig := f.Obj.Type().(*types.Signature)
+			if sig.Results().Len() == 0 {
+				continue
+			}
+			if sl, ok := sig.Results().At(0).Type().Underlying().(*types.Slice); !ok || sl.Elem().String() != "byte" {
+				continue
+			}
+			info := f.Info()
+			// fresh local buffers
+			fresh := map[types.Object]bool{}
+			ast.Inspect(f.Decl.Body, func(x ast.Node) bool {
+				switch v := x.(type) {
+				case *ast.ValueSpec:
+					if len(v.Values) == 0 {
+						for _, nm := range v.Names {
+							fresh[info.Defs[nm]] = true
+						}
+					}
+				case *ast.AssignStmt:
+					if v.Tok != token.DEFINE || len(v.Lhs) != len(v.Rhs) {
+						return true
+					}
+					for i, r := range v.Rhs {
+						r = core.Unparen(r)
+						ok := false
+						if u, isU := r.(*ast.UnaryExpr); isU && u.Op == token.AND {
+							_, ok = core.Unparen(u.X).(*ast.CompositeLit)
+						}
+						if call, isCall := r.(*ast.CallExpr); isCall {
+							if isBuiltinCall(info, call, "new") || core.IsCallTo(info, call, "bytes.NewBuffer", "bytes.NewBufferString") {
+								ok = true
+							}
+						}
+						if _, isLit := r.(*ast.CompositeLit); isLit {
+							ok = true
+						}
+						if ok {
+							if id, isId := v.Lhs[i].(*ast.Ident); isId {
+								fresh[info.Defs[id]] = true
+							}
+						}
+					}
+				}
+				return true
+			})
+			var check func(e ast.Expr, depth int) (string, bool)
+			check = func(e ast.Expr, depth int) (string, bool) {
+				e = core.Unparen(e)
+				if sl, ok := e.(*ast.SliceExpr); ok {
+					e = core.Unparen(sl.X)
+				}
+				if call, ok := e.(*ast.CallExpr); ok {
+					if core.IsCallTo(info, call, "bytes.Buffer.Bytes") {
+						root := core.RecvExpr(call)
+						for {
+							root = core.Unparen(root)
+							if sel, isSel := root.(*ast.SelectorExpr); isSel {
+								root = sel.X // a buffer inside a struct: what matters is where the struct comes from
+								continue
+							}
+							break
+						}
+						if o := core.ObjOf(info, root); o != nil && fresh[o] {
+							return "", true
+						}
+						return core.ExprStr(call), false
+					}
+					return "", true
+				}
+				if id, ok := e.(*ast.Ident); ok && depth < 2 {
+					if def := localDef(info, f.Decl.Body, info.Uses[id]); def != nil {
+						return check(def, depth+1)
+					}
+				}
+				return "", true
+			}
+			bad := ""
+			var badPos token.Pos
+			k := 0
+			ast.Inspect(f.Decl.Body, func(x ast.Node) bool {
+				if _, isLit := x.(*ast.FuncLit); isLit {
+					return false
+				}
+				ret, ok := x.(*ast.ReturnStmt)
+				if !ok || len(ret.Results) == 0 {
+					return true
+				}
+				k++
+				if how, good := check(ret.Results[0], 0); !good && bad == "" {
+					bad, badPos = how, ret.Pos()
+				}
+				return true
+			})
+			if k == 0 {
+				continue
+			}
+			n++
+			c.Touch(f)
+			if bad != "" {
+				rOwn.Bad(f.Key+":result-owned-by-caller", badPos, "the result is "+bad+", a view of a buffer that was not allocated by this call (pooled, package-level or held in a field): the next call that reuses the buffer overwrites bytes the caller still holds")
+			} else {
+				rOwn.Ok(f.Key+":result-owned-by-caller", f.Decl.Pos(), "results are fresh slices or views of buffers allocated in the call")
+			}
+		}
+		if n == 0 {
+			rOwn.Bad(pkgCompressor+":byte-results", token.NoPos, "no function of the compressor returns bytes (rule needs review)")
+		}
+	}
+
 	rI := c.Rule("C24.integrity", "no compressor or decompressor is configured to drop the integrity check of its frame format: no library struct field or option whose name mentions a checksum / CRC is set to the value that disables it (NoChecksum: true, IgnoreChecksum(true), WithEncoderCRC(false), ...)", 1)
 	{
 		isLib := func(o types.Object) bool {
